@@ -109,6 +109,12 @@ EXPRS = [
     ('30 * * * * 0', dict(seconds={30}, minutes=ALL(60), hours=ALL(24), dom=ALL(32, 1), dow={0}, months=ALL(12))),
     ('* * * * * *', dict(seconds=ALL(60), minutes=ALL(60), hours=ALL(24), dom=ALL(32, 1), dow=ALL(7), months=ALL(12))),
     ('0 0 0 30 2 *', dict(seconds={0}, minutes={0}, hours={0}, dom={30}, dow=ALL(7), months={1})),
+    # lists in the lower fields under a restricted higher field (a lower field moved forward must restart when a higher one moves: D41), and a month entered from a 29th..31st
+    ('10,40 5 * * * *', dict(seconds={10, 40}, minutes={5}, hours=ALL(24), dom=ALL(32, 1), dow=ALL(7), months=ALL(12))),
+    ('*/7 */11 */5 * * *', dict(seconds=set(range(0, 60, 7)), minutes=set(range(0, 60, 11)), hours=set(range(0, 24, 5)), dom=ALL(32, 1), dow=ALL(7), months=ALL(12))),
+    ('5,35 10,50 3,15 * * *', dict(seconds={5, 35}, minutes={10, 50}, hours={3, 15}, dom=ALL(32, 1), dow=ALL(7), months=ALL(12))),
+    ('0 0 12 * 2 0', dict(seconds={0}, minutes={0}, hours={12}, dom=ALL(32, 1), dow={0}, months={1})),
+    ('0 */15 8-17 * 2 0,6', dict(seconds={0}, minutes={0, 15, 30, 45}, hours=set(range(8, 18)), dom=ALL(32, 1), dow={0, 6}, months={1})),
 ]
 SIZES = (('seconds', 8), ('minutes', 8), ('hours', 3), ('days_of_week', 1), ('days_of_month', 4), ('months', 2))
 KEYS = {'seconds': 'seconds', 'minutes': 'minutes', 'hours': 'hours', 'days_of_week': 'dow', 'days_of_month': 'dom', 'months': 'months'}
@@ -122,6 +128,12 @@ def instants(tier):
         for d in ((-1, 0, 1) if tier != 'thorough' else (-61, -2, -1, 0, 1, 2, 61, 3599, 86399)):
             if b + d >= 0:
                 out.append(b + d)
+    # instants in the middle of a minute, an hour, a day, on the 29th..31st of months followed by shorter ones
+    mid = [ts(2024, 1, 31, 12, 3, 20), ts(2018, 6, 29, 10, 0, 0), ts(2024, 8, 30, 10, 0, 0), ts(2040, 3, 29, 12, 23, 43), ts(1986, 11, 25, 5, 54, 35), ts(2009, 4, 4, 14, 50, 19),
+           ts(2023, 10, 31, 3, 10, 4), ts(2024, 5, 31, 15, 50, 36)]
+    for b in mid:
+        for d in ((0,) if tier != 'thorough' else (0, 7, 3600, 86400)):
+            out.append(b + d)
     return out
 
 
@@ -216,7 +228,7 @@ def r18(ctx, prog):
     ins = instants(ctx.tier)
     ctx.rule('C20.R18', 'A10 the next instant of a cron expression by abstract replay: cron_next() of the bundled ccronexpr (do_next and its helpers, with gmtime_r/timegm as models of the '
              'harness) is interpreted on %d parsed expressions (every 10 minutes, a daily time, seconds lists at 23:59, day 31, 29 February, working days, day-of-month with '
-             'day-of-week, a month, a week day every minute, every second, 30 February) x %d instants around minute, hour, day, month, leap-day, year and century boundaries '
+             'day-of-week, a month, a week day every minute, every second, 30 February, lists of seconds / minutes / hours under a restricted minute / hour, week days of one month) x %d instants around minute, hour, day, month, leap-day, year and century boundaries '
              '(1970 to 2100): each answer is the earliest second strictly after the given one whose second, minute, hour, day of month, day of week and month are all in the '
              'tables, and an expression no day matches is refused with (time_t)-1; no fault (out-of-range table read, double free) on the way' % (len(EXPRS), len(ins)), floor=1)
     b = Bench(prog)
